@@ -1,8 +1,212 @@
-import WacModel.Spec.Names
+import WacProofs.Lemmas.NameMap
+/-
+  C15 — semver-compatible name matching is the semver track relation; highest wins.
+
+  Model: `Wac.compat`, `Wac.NameMap.{insert,get}` (WacModel/Names.lean, transcribing names.rs).
+  Specification: `Wac.Spec.{trackOf, compatSpec, getSpec}` (WacModel/Spec/Names.lean).
+-/
 namespace Wac.Props.C15
 open Wac Wac.Spec
 
+/-- C15, first sentence, for all strings: the string-slicing implementation of
+`are_semver_compatible` decides exactly "identical, or same base name and both release
+versions on the same compatibility track". -/
+theorem compat_eq_spec (a b : Str) : compat a b = compatSpec a b := by
+  unfold compat compatSpec
+  by_cases hab : a = b
+  · subst hab; simp
+  · have hne : (a == b) = false := by simpa using hab
+    simp only [hne, Bool.false_eq_true, ↓reduceIte, Bool.false_or]
+    have ha := altKey_track a
+    have hb := altKey_track b
+    cases hka : altKey a with
+    | none =>
+      rw [hka] at ha
+      cases hta : trackOf a with
+      | none => simp
+      | some t => rw [hta] at ha; exact ha.elim
+    | some kv =>
+      obtain ⟨ka, va⟩ := kv
+      rw [hka] at ha
+      cases hta : trackOf a with
+      | none => rw [hta] at ha; exact ha.elim
+      | some ta =>
+        rw [hta] at ha
+        cases hkb : altKey b with
+        | none =>
+          rw [hkb] at hb
+          cases htb : trackOf b with
+          | none => simp
+          | some t => rw [htb] at hb; exact hb.elim
+        | some kv' =>
+          obtain ⟨kb, vb⟩ := kv'
+          rw [hkb] at hb
+          cases htb : trackOf b with
+          | none => rw [htb] at hb; exact hb.elim
+          | some tb =>
+            rw [htb] at hb
+            have := keyRep_eq_iff ha.1 hb.1
+            simp only
+            by_cases hk : ka = kb
+            · simp [hk, this.mp hk]
+            · have hne' : ta ≠ tb := fun h => hk (this.mpr h)
+              have e1 : (ka == kb) = false := beq_eq_false_iff_ne.mpr hk
+              have e2 : (ta == tb) = false := beq_eq_false_iff_ne.mpr hne'
+              rw [e1, e2]
+
+/-- the same statement unfolded: compatible iff identical or on one track -/
+theorem compat_iff (a b : Str) :
+    compat a b = true ↔ a = b ∨ ∃ t, trackOf a = some t ∧ trackOf b = some t := by
+  rw [compat_eq_spec]; unfold compatSpec
+  simp only [Bool.or_eq_true, beq_iff_eq]
+  constructor
+  · rintro (h | h)
+    · exact .inl h
+    · right
+      cases hta : trackOf a with
+      | none => simp [hta] at h
+      | some ta =>
+        cases htb : trackOf b with
+        | none => simp [hta, htb] at h
+        | some tb =>
+          simp [hta, htb] at h; exact ⟨ta, rfl, by rw [h]⟩
+  · rintro (h | ⟨t, h1, h2⟩)
+    · exact .inl h
+    · right; simp [h1, h2]
+
+-- non-vacuity: a pair that is compatible without being identical, and a pair on different tracks
+example : compat "a:b/c@0.2.0".toList "a:b/c@0.2.7+meta".toList = true := by decide
+example : compat "a:b/c@0.2.0".toList "a:b/c@0.3.0".toList = false := by decide
+example : compat "a:b/c@1.2.0".toList "a:b/c@1.9.3".toList = true := by decide
+example : compat "a:b/c@1.2.0-rc".toList "a:b/c@1.9.3".toList = false := by decide
+example : compat "a:b/c@0.0.1".toList "a:b/c@0.0.2".toList = false := by decide
+
 theorem compat_refl (a : Str) : compat a a = true := by
-  simp [compat]
+  rw [compat_iff]; exact .inl rfl
+
+theorem compat_symm (a b : Str) : compat a b = compat b a := by
+  have h : ∀ x y, compat x y = true → compat y x = true := by
+    intro x y h
+    rw [compat_iff] at h ⊢
+    rcases h with h | ⟨t, h1, h2⟩
+    · exact .inl h.symm
+    · exact .inr ⟨t, h2, h1⟩
+  cases hab : compat a b with
+  | true => exact (h a b hab).symm
+  | false =>
+    cases hba : compat b a with
+    | true => rw [h b a hba] at hab; cases hab
+    | false => rfl
+
+theorem compat_trans (a b c : Str) (h1 : compat a b = true) (h2 : compat b c = true) :
+    compat a c = true := by
+  rw [compat_iff] at h1 h2 ⊢
+  rcases h1 with rfl | ⟨t, ha, hb⟩
+  · exact h2
+  · rcases h2 with rfl | ⟨t', hb', hc⟩
+    · exact .inr ⟨t, ha, hb⟩
+    · rw [hb] at hb'; cases hb'
+      exact .inr ⟨t, ha, hc⟩
+
+/-- never compatible across base names, for pre-releases or for 0.0.x -/
+theorem compat_distinct_needs_track (a b : Str) (hne : a ≠ b) (h : compat a b = true) :
+    ∃ t, trackOf a = some t ∧ trackOf b = some t := by
+  rw [compat_iff] at h
+  rcases h with h | h
+  · exact absurd h hne
+  · exact h
+
+/-! ### The semver-aware name map -/
+
+variable {β : Type}
+
+/-- inserting pairwise distinct names never fails -/
+theorem insertAll_succeeds (es : List (Str × β)) (hnd : (es.map (·.1)).Nodup) :
+    ∃ m, ({} : NameMap β).insertAll es = some m :=
+  insertAll_ok es {} hnd (by intro n _; rfl)
+
+/-- C15, second sentence (for every insertion sequence of pairwise distinct names and every
+query): an exact match is returned when one exists; otherwise an entry of the requested track
+that no entry of that track exceeds in version; nothing when the query has no track or the
+track has no entry. -/
+theorem get_isGet (es : List (Str × β)) (m : NameMap β) (q : Str)
+    (hnd : (es.map (·.1)).Nodup) (h : ({} : NameMap β).insertAll es = some m) :
+    IsGet es q (m.get q) :=
+  get_isGet_aux es m q hnd h
+
+/-- exact match first -/
+theorem get_exact_first (es : List (Str × β)) (m : NameMap β) (n : Str) (x : β)
+    (hnd : (es.map (·.1)).Nodup) (h : ({} : NameMap β).insertAll es = some m) (hx : (n, x) ∈ es) :
+    m.get n = some x := by
+  have := get_isGet es m n hnd h
+  unfold IsGet at this
+  rw [show Spec.lookup es n = some x from mem_lookup hnd hx] at this
+  exact this
+
+/-- never an entry from another name or track -/
+theorem get_never_other_track (es : List (Str × β)) (m : NameMap β) (q : Str) (x : β)
+    (hnd : (es.map (·.1)).Nodup) (h : ({} : NameMap β).insertAll es = some m)
+    (hget : m.get q = some x) :
+    ∃ n, (n, x) ∈ es ∧ (n = q ∨ ∃ t, trackOf n = some t ∧ trackOf q = some t) := by
+  have := get_isGet es m q hnd h
+  unfold IsGet at this
+  rw [hget] at this
+  cases hl : Spec.lookup es q with
+  | some y =>
+    rw [hl] at this; cases this
+    exact ⟨q, lookup_some_mem hl, .inl rfl⟩
+  | none =>
+    rw [hl] at this
+    simp only at this
+    cases ht : trackOf q with
+    | none => rw [ht] at this; cases this
+    | some t =>
+      rw [ht] at this
+      rcases this with ⟨h1, _⟩ | ⟨n, y, v, h1, h2, h3, _, _⟩
+      · cases h1
+      · cases h1; exact ⟨n, h2, .inr ⟨t, h3, rfl⟩⟩
+
+/-- highest version on the track: no entry on the query's track is strictly higher than the one
+returned by a fallback lookup -/
+theorem get_highest_on_track (es : List (Str × β)) (m : NameMap β) (q : Str) (t : Track)
+    (hnd : (es.map (·.1)).Nodup) (h : ({} : NameMap β).insertAll es = some m)
+    (hq : q ∉ es.map (·.1)) (ht : trackOf q = some t) (hsome : ∃ e ∈ es, trackOf e.1 = some t) :
+    ∃ n x v, m.get q = some x ∧ (n, x) ∈ es ∧ trackOf n = some t ∧ versionOf n = some v ∧
+      ∀ e ∈ es, trackOf e.1 = some t → ∀ v', versionOf e.1 = some v' → ¬ (v.lt v' = true) := by
+  have := get_isGet es m q hnd h
+  unfold IsGet at this
+  rw [(lookup_none_iff es q).mpr hq, ht] at this
+  simp only at this
+  rcases this with ⟨_, h2⟩ | h
+  · obtain ⟨e, he, hte⟩ := hsome; exact absurd hte (h2 e he)
+  · exact h
+
+/-- regardless of insertion order: with pairwise distinct names and no two entries of a track at
+the same position of the version order, any two insertion orders answer every query alike -/
+theorem get_order_independent (es es' : List (Str × β)) (m m' : NameMap β) (q : Str)
+    (hnd : (es.map (·.1)).Nodup) (htf : TieFree es) (hp : es.Perm es')
+    (h : ({} : NameMap β).insertAll es = some m) (h' : ({} : NameMap β).insertAll es' = some m') :
+    m.get q = m'.get q := by
+  have hnd' : (es'.map (·.1)).Nodup := (hp.map _).nodup_iff.mp hnd
+  have a := get_isGet es m q hnd h
+  have b := isGet_perm hp.symm hnd' q _ (get_isGet es' m' q hnd' h')
+  exact isGet_unique hnd htf q _ _ a b
+
+/-- the model equals the executable specification the driver evaluates on the
+implementation's answers -/
+theorem get_eq_getSpec (es : List (Str × β)) (m : NameMap β) (q : Str)
+    (hnd : (es.map (·.1)).Nodup) (htf : TieFree es)
+    (h : ({} : NameMap β).insertAll es = some m) : m.get q = getSpec es q :=
+  isGet_unique hnd htf q _ _ (get_isGet es m q hnd h) (getSpec_isGet es q)
+
+-- non-vacuity: three versions of one track inserted in two orders, a fourth on another track;
+-- the hypotheses hold and the fallback answers with the highest (index 1 = 1.4.0)
+def exEntries : List (Str × Nat) :=
+  [("a:b/c@1.0.0".toList, 0), ("a:b/c@1.4.0".toList, 1), ("a:b/c@1.2.9".toList, 2), ("a:b/c@2.0.0".toList, 3)]
+example : (exEntries.map (·.1)).Nodup := by decide
+example : (({} : NameMap Nat).insertAll exEntries).map (·.get "a:b/c@1.1.0".toList) = some (some 1) := by decide
+example : (({} : NameMap Nat).insertAll exEntries.reverse).map (·.get "a:b/c@1.1.0".toList) = some (some 1) := by decide
+example : (({} : NameMap Nat).insertAll exEntries).map (·.get "a:b/c@3.0.0".toList) = some none := by decide
+example : getSpec exEntries "a:b/c@1.1.0".toList = some 1 := by decide
 
 end Wac.Props.C15
